@@ -138,6 +138,7 @@ class Net:
         self.socks: list[Sock] = []
         self.ledger: list[dict[str, typing.Any]] = []
         self.ops = 0  # number of fault-eligible operations issued so far
+        self.writes_lost: list[tuple[int, int]] = []  # (sock, nbytes) handed to write() but never sent: the call was cancelled
         self.fault_fired: str | None = None
         self.connect_outcomes = list(connect_outcomes) if connect_outcomes is not None else None
         self.on_event: typing.Callable[[dict[str, typing.Any]], None] | None = None
@@ -450,7 +451,13 @@ class AsyncSimStream(AsyncNetworkStream):
         return self._net.read_now(self._sock, max_bytes)
 
     async def write(self, buffer: bytes, timeout: typing.Any = None) -> None:
-        await vrt.RT.checkpoint()
+        try:
+            await vrt.RT.checkpoint()
+        except vrt.Cancelled:
+            self._net.writes_lost.append((self._sock.id, len(buffer)))
+            if not hasattr(self._net, "lost_mark"):
+                self._net.lost_mark = len(self._net.ledger) - 1  # type: ignore[attr-defined]
+            raise
         self._net.do_write(self._sock, self._depth, buffer, timeout)
         await vrt.RT.cancel_shielded_checkpoint()
 
